@@ -779,18 +779,19 @@ def r03n(rep, F, solves):
                     if t is not None and '*' in (t.get('ty') or '') and re.search(r'Motion|Vertex', t.get('ty') or ''):
                         paired.add(f.fp(t['id']))
         for c in f.walk():
-            if not ((c.get('callee') or '').endswith('::isSatisfied') and 'Goal' in c['callee']) or len(args(f, c)) < 2:
+            if not ((c.get('callee') or '').endswith('::isSatisfied') and 'Goal' in c['callee']) or len(args(f, c)) < 1:
                 continue
             x = f.strip(args(f, c)[0])
             if x is None or x['k'] != 'MemberExpr' or not x['ch'] or f.fp(x['ch'][0]) not in paired:
                 continue
             n += 1
-            outs = {'%s#%d' % (z['name'], z['did']) for z in f.walk(args(f, c)[1]) if z['k'] == 'DeclRefExpr'}
+            # the one-argument form measures nothing: the reported difference keeps its initial value
+            outs = {'%s#%d' % (z['name'], z['did']) for z in f.walk(args(f, c)[1]) if z['k'] == 'DeclRefExpr'} if len(args(f, c)) >= 2 else set()
             ok = bool(outs & Ds)
             rep.add('R03n', f.name, 'preserved-solution-remeasured', ok, f.where(c),
                     'the kept solution node is measured into the reported difference' if ok else
                     'the goal test of the kept solution node %s writes its distance into %s, not into the difference that is reported with '
-                    'the path' % (nofp(f.fp(x['ch'][0])), sorted(nofp(o) for o in outs)))
+                    'the path' % (nofp(f.fp(x['ch'][0])), sorted(nofp(o) for o in outs) or 'nothing (one-argument form)'))
     rep.require_count('R03n', 'preserved-solution goal tests', n, 2)
 
 
